@@ -201,7 +201,7 @@ def proj_dump(x):
 
 
 def shape_stage(ctx, res, nfonts, ntexts, as_failure=False, gen_kw=None, fontgen=None, textgen=None, pred=None, label=None):
-    """whole-pipeline correspondence: synthesised left-to-right fonts shaped by the real engine (public API) and by the
+    """whole-pipeline correspondence: synthesised fonts (both directions) shaped by the real engine (public API) and by the
     Lean pass-engine model (grdriver shape); glyph ids, associations and attachments must be identical"""
     import re
     r = lib.rng("shape")
@@ -211,19 +211,23 @@ def shape_stage(ctx, res, nfonts, ntexts, as_failure=False, gen_kw=None, fontgen
     try:
         fonts, lines, mlines = [], [], []
         for i in range(nfonts):
-            data, desc = fontgen(r) if fontgen else fontsynth.gen_font(r, dirn=0, **(gen_kw or {}))
+            # every other font exercises the direction machinery: a right-to-left or left-to-right font, passes that run
+            # against the font's direction, glyphs of bidi class 16, and requests in either direction
+            both = fontgen is None and i % 2 == 1
+            data, desc = fontgen(r) if fontgen else (fontsynth.gen_font(r, rtl=True, **(gen_kw or {})) if both else fontsynth.gen_font(r, dirn=0, **(gen_kw or {})))
             p = tmp / ("f%d.ttf" % i)
             p.write_bytes(data)
             fonts.append(str(p))
             for _ in range(ntexts):
                 t = textgen(r) if textgen else fontsynth.gen_text(r)
                 hx = "".join("%08x" % c for c in t) or "-"
-                lines.append("F0=%d,0,f;S0=0,-1,-1,0,32,0,-1,%s;R0;D0" % (i, hx))
-                mlines.append("shape %s text=%s" % (desc["model"], hx))
+                d = r.choice([0, 1]) if both else 0
+                lines.append("F0=%d,0,f;S0=0,-1,-1,0,32,%d,-1,%s;R0;D0" % (i, d, hx))
+                mlines.append("shape %s dir=%d text=%s" % (desc["model"], d, hx))
         impl = lib.run_lines([exe] + fonts, lines, per_chunk=100)
         model = lib.run_lines([lib.driver_path(), "shape"], mlines, per_chunk=100) if ctx.model_ok else [None] * len(lines)
         res.harness.append("h_seg vs grdriver shape")
-        res.rules.append(label % (nfonts, ntexts) if label else "shape: %d synthesised left-to-right fonts (1..3 passes, 1..5 rules per pass over 2|3|9 overlapping glyph columns, uniform pre-context 0..2, rule length 1..3, constraints on glyph attributes, actions next/insert/delete/put_copy/assoc/attach/attr_set/put_glyph) x %d texts of 0..12 characters" % (nfonts, ntexts))
+        res.rules.append(label % (nfonts, ntexts) if label else "shape: %d synthesised fonts (half of them left-to-right with left-to-right requests, half in either direction with passes running against the font's direction, bidi-class-16 glyphs and requests in either direction; 1..3 passes, 1..5 rules per pass over 2|3|9 overlapping glyph columns, uniform pre-context 0..2, rule length 1..3, constraints on glyph attributes, actions next/insert/delete/put_copy/assoc/attach/attr_set/put_glyph) x %d texts of 0..12 characters" % (nfonts, ntexts))
         for l, ml, i, m in zip(lines, mlines, impl, model):
             res.evaluations += 1
             res.distinct.add(ml)
